@@ -96,7 +96,12 @@ theorem isHermitianIO_sound (I : Interp A)
     (car_same : ∀ x l : Factor, x.2 = l.2 → x.1 ≠ l.1 → I.g l * I.g x + I.g x * I.g l = 0)
     (car_sq : ∀ x l : Factor, x.2 = l.2 → x.1 = l.1 → I.g l * I.g x = 0)
     (tol : Rat) (n : Nat) (c : GQ) (one two : List GQ) (hlen : one.length = n * n)
-    (hexact : ∀ x y : GQ, (x - y).normSq < tol * tol → x = y)
+    (hexact : ∀ k i,
+      (Spec.C02.entry (Model.C02.ioNormalTensors n c one two) k i -
+        Spec.C02.entry (Model.C02.ioNormalTensors n c.conj (Model.C02.hcOneBody n one) (Model.C02.hcTwoBody n two)) k i).normSq
+          < tol * tol →
+      Spec.C02.entry (Model.C02.ioNormalTensors n c one two) k i =
+        Spec.C02.entry (Model.C02.ioNormalTensors n c.conj (Model.C02.hcOneBody n one) (Model.C02.hcTwoBody n two)) k i)
     (h : Model.C02.isHermitianIO tol n c one two = true) :
     denIO I n c one two = denIO I n c.conj (Model.C02.hcOneBody n one) (Model.C02.hcTwoBody n two) := by
   unfold Model.C02.isHermitianIO Model.C02.tensorEq at h
@@ -104,7 +109,7 @@ theorem isHermitianIO_sound (I : Interp A)
   · obtain ⟨_, _, hent⟩ := h
     have ent : ∀ k i, Spec.C02.entry (Model.C02.ioNormalTensors n c one two) k i =
         Spec.C02.entry (Model.C02.ioNormalTensors n c.conj (Model.C02.hcOneBody n one) (Model.C02.hcTwoBody n two)) k i :=
-      fun k i => hexact _ _ (hent k i)
+      fun k i => hexact k i (hent k i)
     apply hermitianIO_sound I car_same car_sq n c one two
     · have := ent [] 0
       simpa [Spec.C02.entry, Model.C02.ioNormalTensors, Dict.get?] using this
